@@ -20,30 +20,54 @@ Theorem C01_prec_table_is_spec : prec_table_spec.
 Proof. exact prec_table_spec_holds. Qed.
 Print Assumptions C01_prec_table_is_spec.
 
-(* For EVERY derivation l of the stratified, left-associative grammar (atoms,
-   parenthesised groups incl. redundant ones, unary - and !, the six binary
-   levels) and EVERY legal layout of it — arbitrary optional whitespace in a
-   free context (statement level, inside parentheses), none outside parentheses
-   in a tight context (call argument, array element, map value) — the parser
-   model, started on the tokens of l followed by anything that can follow an
+(* For EVERY derivation l of the stratified, left-associative grammar — atoms,
+   parenthesised groups (incl. redundant ones), unary - and !, the six binary
+   levels, and the postfix forms a[i], a[i:j] (all four shapes), m.k, x.(type),
+   arbitrarily nested — and EVERY legal layout of it (arbitrary optional
+   whitespace in a free context: statement level, inside ( ) and [ ]; none
+   outside brackets in a tight context: call argument, array element, map value;
+   never after a unary operator, before "[" or around "."), the parser model,
+   started on the tokens of l followed by anything that can follow an
    expression, returns exactly the tree the grammar prescribes, consumes exactly
-   l's tokens, records no error and leaves the whitespace-sensitivity stack as
-   it found it; the fuel the model's entry point uses (2 x tokens + 10) suffices.
-   _partial: the postfix forms a[i], a[i:j], m.k, x.(t), calls and array / map
-   literals are in the model and in the correspondence run, but not in the
+   l's tokens, records no error and leaves the whitespace-sensitivity stack as it
+   found it; the fuel the model's entry point uses (2 x tokens + 10) suffices.
+
+   slice_guard is the explicit guard excluding exactly the class on which the
+   code is defective (C01_prec_slice_refuted): as parseSlice is written, an
+   expression that ENDS in a slice must not be followed by whitespace; for the
+   corrected parseSlice the theorem holds without it (…_fixed below).
+
+   _partial: function calls inside parentheses "(f a b)" and array / map literals
+   as operands are in the model and in the correspondence run, but not in the
    grammar this theorem quantifies over. *)
 Theorem C01_prec_pratt_parses_layered_grammar_partial :
   forall E l st rest0 fuel,
-  Lay 0 l -> atoms_ok E l ->
+  Lay 0 l -> atoms_ok E l -> layout_ok l = true ->
+  rest st = render l ++ rest0 ->
+  (is_wss st = true -> tight_ok l = true) ->
+  (is_wss st = false -> is_ws (look0 rest0) = false) ->
+  slice_guard E l rest0 ->
+  stop_tok (is_wss st) lowestPrec (look0 rest0) ->
+  2 * List.length (render l) <= fuel ->
+  parse_expr E fuel lowestPrec st = Some (Some (tree_of l), consume E l st) /\
+  rest (consume E l st) = rest0 /\ wss (consume E l st) = wss st /\ errs (consume E l st) = errs st.
+Proof. exact pratt_layered. Qed.
+Print Assumptions C01_prec_pratt_parses_layered_grammar_partial.
+
+(* the same for the model with the corrected parseSlice (proposed_fixes/C01-slice-rbracket-ws.diff): no guard *)
+Theorem C01_prec_pratt_parses_layered_grammar_fixed_partial :
+  forall E l st rest0 fuel,
+  e_fix_slice E = true ->
+  Lay 0 l -> atoms_ok E l -> layout_ok l = true ->
   rest st = render l ++ rest0 ->
   (is_wss st = true -> tight_ok l = true) ->
   (is_wss st = false -> is_ws (look0 rest0) = false) ->
   stop_tok (is_wss st) lowestPrec (look0 rest0) ->
   2 * List.length (render l) <= fuel ->
-  parse_expr E fuel lowestPrec st = Some (Some (tree_of l), consume l st) /\
-  rest (consume l st) = rest0 /\ wss (consume l st) = wss st /\ errs (consume l st) = errs st.
-Proof. exact pratt_layered. Qed.
-Print Assumptions C01_prec_pratt_parses_layered_grammar_partial.
+  parse_expr E fuel lowestPrec st = Some (Some (tree_of l), consume E l st) /\
+  rest (consume E l st) = rest0 /\ wss (consume E l st) = wss st /\ errs (consume E l st) = errs st.
+Proof. exact pratt_layered_fixed. Qed.
+Print Assumptions C01_prec_pratt_parses_layered_grammar_fixed_partial.
 
 (* a op1 b op2 c with op1, op2 of the same level is (a op1 b) op2 c — at every level, under every legal layout *)
 Theorem C01_prec_left_assoc :
@@ -79,15 +103,32 @@ Theorem C01_prec_tighter_binds_first :
 Proof. exact tighter_binds_first. Qed.
 Print Assumptions C01_prec_tighter_binds_first.
 
+(* unary operators bind tighter than every binary operator and looser than indexing:  -a[i] op b = (-(a[i])) op b *)
+Theorem C01_prec_unary_between :
+  forall E u o a i b w1 w2 w3 wi wb st rest0 fuel,
+  let l := LBin o (LUn u (LIndex (LAtom a false) w1 (LAtom i wi) w2)) w3 (LAtom b wb) in
+  atoms_ok E l ->
+  rest st = render l ++ rest0 ->
+  (is_wss st = true -> tight_ok l = true) ->
+  (is_wss st = false -> is_ws (look0 rest0) = false) ->
+  stop_tok (is_wss st) lowestPrec (look0 rest0) ->
+  2 * List.length (render l) <= fuel ->
+  exists st', parse_expr E fuel lowestPrec st =
+    Some (Some (TBin (binop_tok o) (TUn (unop_tok u) (TIndex (atom_tree a) (atom_tree i))) (atom_tree b)), st')
+    /\ rest st' = rest0.
+Proof. exact unary_between. Qed.
+Print Assumptions C01_prec_unary_between.
+
 (* two legal layouts of the same derivation (possibly in different contexts:
    one at statement level, one as a call argument) give the same tree *)
 Theorem C01_prec_layout_irrelevant :
   forall E l1 l2 st1 st2 r1 r2 fuel1 fuel2,
   erase l1 = erase l2 ->
-  Lay 0 l1 -> Lay 0 l2 -> atoms_ok E l1 -> atoms_ok E l2 ->
+  Lay 0 l1 -> Lay 0 l2 -> atoms_ok E l1 -> atoms_ok E l2 -> layout_ok l1 = true -> layout_ok l2 = true ->
   rest st1 = render l1 ++ r1 -> rest st2 = render l2 ++ r2 ->
   (is_wss st1 = true -> tight_ok l1 = true) -> (is_wss st2 = true -> tight_ok l2 = true) ->
   (is_wss st1 = false -> is_ws (look0 r1) = false) -> (is_wss st2 = false -> is_ws (look0 r2) = false) ->
+  slice_guard E l1 r1 -> slice_guard E l2 r2 ->
   stop_tok (is_wss st1) lowestPrec (look0 r1) -> stop_tok (is_wss st2) lowestPrec (look0 r2) ->
   2 * List.length (render l1) <= fuel1 -> 2 * List.length (render l2) <= fuel2 ->
   exists t s1 s2,
@@ -101,7 +142,7 @@ Print Assumptions C01_prec_layout_irrelevant.
    the cursor at the end of line, no error *)
 Theorem C01_prec_decl_stmt_parses :
   forall E x w0 w1 l fuel,
-  Lay 0 l -> atoms_ok E l ->
+  Lay 0 l -> atoms_ok E l -> layout_ok l = true ->
   let toks := {| ttype := T_IDENT; tlit := x |} :: wsl w0 ++ mk T_DECLARE :: wsl w1 ++ render l ++ [mk T_NL] in
   2 * List.length toks <= fuel ->
   exists st', parse_stmt_expr E fuel 2 toks = Some (Some (tree_of l), st') /\
@@ -169,7 +210,7 @@ Example C01_prec_ex_free_hyps :
      (is_wss st = true -> tight_ok ex_free = true) /\ (is_wss st = false -> is_ws (look0 [mk T_NL]) = false)).
 Proof. split; [reflexivity|]. intros st W _. split; [rewrite W; discriminate|reflexivity]. Qed.
 
-Example C01_prec_ex_free_lay : Lay 0 ex_free /\ atoms_ok env_code ex_free.
+Example C01_prec_ex_free_lay : Lay 0 ex_free /\ atoms_ok env_code ex_free /\ layout_ok ex_free = true.
 Proof.
   split.
   - unfold ex_free.
@@ -220,3 +261,42 @@ Example C01_prec_ex_tight_illegal :
   | None => false
   end = true.
 Proof. vm_compute. reflexivity. Qed.
+
+(* postfix forms in a tight context:  print -arr[ a + 1 ]*b.k c.( []num )[:1]  *)
+Definition ex_post1 : lexp :=
+  LBin BMul
+    (LUn UNeg (LIndex (LAtom (AVar (s_ "arr")) false) true
+                 (LBin BAdd (LAtom (AVar (s_ "a")) true) true (LAtom (ANum (s_ "1")) true)) false))
+    false (LDot (LAtom (AVar (s_ "b")) false) (s_ "k") false).
+Definition ex_post2 : lexp :=
+  LSlice (LAssert (LAtom (AVar (s_ "c")) false) true (TyArr TyNum) true false) false None false
+         (Some (LAtom (ANum (s_ "1")) false)) false.
+
+Example C01_prec_ex_postfix_lay :
+  Lay 0 ex_post1 /\ Lay 0 ex_post2 /\
+  atoms_ok env_code ex_post1 /\ atoms_ok env_code ex_post2 /\
+  layout_ok ex_post1 = true /\ layout_ok ex_post2 = true /\ tight_ok ex_post1 = true /\ tight_ok ex_post2 = true /\
+  slice_guard env_code ex_post2 [mk T_NL].
+Proof.
+  split; [|split].
+  - apply (Lay_0_of 6). apply (Lay_bin BMul).
+    + apply (Lay_up 6). apply (Lay_un UNeg). apply (Lay_up 7). apply Lay_index.
+      * apply Lay_atom.
+      * apply (Lay_0_of 5). apply (Lay_bin BAdd); apply Lay_atom_any; repeat constructor.
+    + apply (Lay_up 7). apply Lay_dot. apply Lay_atom.
+  - apply (Lay_0_of 8). apply Lay_slice.
+    + apply Lay_assert. apply Lay_atom.
+    + intros x H. discriminate H.
+    + intros x H. inversion H; subst. apply Lay_atom_any. repeat constructor.
+  - vm_compute. repeat split; try discriminate.
+Qed.
+
+Example C01_prec_ex_postfix_parse :
+  let toks := tk T_IDENT "print" :: mk T_WS :: render ex_post1 ++ mk T_WS :: render ex_post2 ++ [mk T_NL] in
+  option_map fst (parse_stmt_expr env_code (2 * List.length toks + 10) 0 toks) =
+    Some (Some (TCall (s_ "print") [tree_of ex_post1; tree_of ex_post2])) /\
+  tree_of ex_post1 =
+    TBin T_ASTERISK (TUn T_MINUS (TIndex (TVar (s_ "arr")) (TBin T_PLUS (TVar (s_ "a")) (TNum (s_ "1")))))
+                    (TDot (TVar (s_ "b")) (s_ "k")) /\
+  tree_of ex_post2 = TSlice (TAssert (TVar (s_ "c")) (Some (TyArr TyNum))) None (Some (TNum (s_ "1"))).
+Proof. vm_compute. repeat split; reflexivity. Qed.
